@@ -151,6 +151,8 @@ func AppendSENString(buf []byte, s string, htmlSafe bool) []byte {
 				buf = append(buf, hex[(b>>4)&0x0f])
 				buf = append(buf, hex[b&0x0f])
 				start = i + 1
+			} else if b == '&' { // not a token character for the SEN parser
+				quote = true
 			}
 		case '8':
 			r, cnt := utf8.DecodeRuneInString(s[i:])
